@@ -13,7 +13,7 @@ TIMES = [T0 + timedelta(microseconds=i) for i in (0, 1, 2)] + [T0 + timedelta(da
 OFFSETS = [UTC, timezone(timedelta(hours=5, minutes=45)), timezone(timedelta(hours=-8)), timezone(timedelta(hours=10, minutes=30))]
 MEAS = ["_default", "m1", "m2", "a,b", "mé"]
 TKEYS = ["a", "b", "t x"]
-TVALS = [None, "", "x", "X", "xy", "x\ny", "a,b"]
+TVALS = [None, "", "x", "X", "xy", "x\ny", "a,b", "x\u2028y", "x\x1dy\x85"]
 FKEYS = ["a", "f", "_t"]
 FVALS = [None, 0, -0.0, 1, 2, -1.5, 2.0, math.inf]
 REGEXES = ["x", "^x", ".*", "[xy]$", "X", "x.y", "^$", "m[12]", "a,"]
@@ -22,7 +22,7 @@ REFLAGS = [0, 2, 16]  # none, IGNORECASE, DOTALL
 
 # sampling weights: common values repeated so that equality leaves hit often, rare/awkward values still occur
 W_MEAS = ["m1", "m1", "m1", "_default", "_default", "a,b", "m2", "mé"]
-W_TVALS = [None, "", "x", "x", "x", "X", "xy", "xy", "x\ny", "a,b"]
+W_TVALS = [None, "", "x", "x", "x", "X", "xy", "xy", "x\ny", "a,b", "x\u2028y", "x\x1dy\x85"]  # incl. characters str.splitlines() breaks on but csv does not
 W_FVALS = [None, 0, -0.0, 1, 1, 1, 2, 2, -1.5, 2.0, math.inf]
 W_TKEYS = ["a", "a", "a", "b", "t x"]
 W_FKEYS = ["a", "a", "a", "f", "_t"]
